@@ -115,6 +115,34 @@ def _as_slice(ex, st, args, dest_ty, func, where):
     return VRef("val", val=deep(ex, st, args[0]))
 
 
+def _index_mut_range(ex, st, args, dest_ty, func, where):
+    """<Vec<u8> as IndexMut<Range*>>::index_mut: a mutable view (reference with a sub-slice projection), bounds-checked"""
+    ref = args[0]
+    while True:
+        inner = ex.deref(st, ref)
+        if isinstance(inner, VRef):
+            ref = inner
+            continue
+        break
+    s, rg = inner, args[1]
+    if not (isinstance(ref, VRef) and ref.kind == "place" and isinstance(s, VSeq)):
+        raise Unsupported("index_mut on %r" % (inner,))
+    if rg.name == "Range":
+        a, b = rg.f[0].t, rg.f[1].t
+    elif rg.name == "RangeTo":
+        a, b = I(0), rg.f[0].t
+    elif rg.name == "RangeFrom":
+        a, b = rg.f[0].t, s.len
+    elif rg.name == "RangeFull":
+        a, b = I(0), s.len
+    else:
+        raise Unsupported("index_mut range " + rg.name)
+    ok = z3.And(a <= b, b <= s.len)
+    ex.oblig("panic", where, "slice range out of bounds (%s)" % func, z3.And(st.guard, z3.Not(ok)))
+    st.guard = simp(z3.And(st.guard, ok))
+    return VRef("place", ref.fid, ref.local, ref.proj + (("slice", simp(a), simp(b - a)),))
+
+
 def _from_elem(ex, st, args, dest_ty, func, where):
     v, n = args
     return VSeq(z3.K(z3.IntSort(), v.t), I(0), n.t, "u8")
@@ -210,13 +238,33 @@ def _fut(kind):
     return mk
 
 
+def _read_some(ex, st, args, dest_ty, func, where):
+    """AsyncRead::read on an in-memory reader, allowing SHORT reads: returns any n with 1 <= n <= min(remaining, buf.len)
+    (0 only at end of input or for an empty buffer) and copies exactly those n bytes"""
+    rref, rd = _find_place(ex, st, args[0])
+    bref, buf = _find_place(ex, st, args[1])
+    if not (isinstance(rd, VStruct) and rd.name == "SliceReader" and isinstance(buf, VSeq)):
+        raise Unsupported("read on %r into %r" % (rd, buf))
+    data = rd.f[0]
+    most = simp(z3.If(data.len < buf.len, data.len, buf.len))
+    n = ex.fresh_int("short_read", lo=0)
+    ex.assumes.append(z3.Implies(st.guard, z3.And(n <= most, z3.Implies(most > 0, n >= 1))))
+    cap = ex.byte_cap
+    arr = buf.arr
+    for j in range(cap):
+        arr = z3.Store(arr, simp(buf.off + j), z3.If(j < n, data.at(I(j)), buf.at(I(j))))
+    ex.store_ref(st, bref, VSeq(arr, buf.off, buf.len, buf.elem))
+    ex.store_ref(st, rref, VStruct("SliceReader", [VSeq(data.arr, simp(data.off + n), simp(data.len - n), "u8")]))
+    return VEnum("Result", I(0), {0: [VInt(n, "usize")]})
+
+
 def _poll_future(ex, st, args, dest_ty, func, where):
     pin = args[0]
     fut = deep(ex, st, pin.f[0] if isinstance(pin, VStruct) and pin.name == "Pin" else pin)
     if not (isinstance(fut, VStruct) and fut.name.startswith("Future:")):
         raise Unsupported("poll of %r" % (fut,))
     kind = fut.name.split(":", 1)[1]
-    h = {"seek": _seek, "read_exact": _read_exact, "write_all": _write_all}[kind]
+    h = {"seek": _seek, "read_exact": _read_exact, "write_all": _write_all, "read": _read_some}[kind]
     r = h(ex, st, fut.f, dest_ty, func, where)
     if kind == "read_exact":
         # tokio's read_exact yields the number of bytes read
@@ -243,6 +291,7 @@ def install(ex):
     A(r"^std::io::copy::<", _io_copy, "std::io::copy between in-memory reader and writer")
     A(r"^<std::io::Error as From<.*>>::from$|^<std::io::Error as Into<.*>>::into$|^std::io::Error::new::<", _opaque_err, "io::Error constructors (opaque)")
     A(r"^Vec::<\w+>::as_slice$", _as_slice, "Vec::as_slice")
+    A(r"^<Vec<u8> as (std::ops::)?IndexMut<(std::ops::)?Range\w*<usize>>>::index_mut$", _index_mut_range, "<Vec<u8> as IndexMut<Range*>>::index_mut (mutable view)")
     A(r"^(std|alloc)::vec::from_elem::<u8>$", _from_elem, "vec![x; n]")
     A(r"^blake3::Hasher::new$", _hasher_new, "blake3::Hasher::new (ideal hash)")
     A(r"^blake3::Hasher::update$", _hasher_update, "blake3::Hasher::update (ideal hash: appends)")
@@ -256,5 +305,6 @@ def install(ex):
     A(r"^<R as (tokio::io::)?AsyncReadExt>::read_exact::<", _fut("read_exact"), "AsyncReadExt::read_exact (in-memory, always ready)")
     A(r"^<R as (tokio::io::)?AsyncReadExt>::read_exact$", _fut("read_exact"), "AsyncReadExt::read_exact (in-memory, always ready)")
     A(r"^<W as (tokio::io::)?AsyncWriteExt>::write_all::<|^<W as (tokio::io::)?AsyncWriteExt>::write_all$", _fut("write_all"), "AsyncWriteExt::write_all (in-memory, always ready)")
-    A(r"^<tokio::io::(seek::Seek|util::read_exact::ReadExact|util::write_all::WriteAll)<'_, \w+> as (std::future::)?Future>::poll$", _poll_future, "tokio Seek/ReadExact/WriteAll::poll (completes immediately)")
+    A(r"^<R as (tokio::io::)?AsyncReadExt>::read::<|^<R as (tokio::io::)?AsyncReadExt>::read$", _fut("read"), "AsyncReadExt::read (in-memory, always ready, SHORT READS allowed)")
+    A(r"^<tokio::io::(seek::Seek|util::read_exact::ReadExact|util::write_all::WriteAll|util::read::Read)<'_, \w+> as (std::future::)?Future>::poll$", _poll_future, "tokio Seek/ReadExact/WriteAll::poll (completes immediately)")
     ex.models = M + ex.models
